@@ -630,7 +630,11 @@ func (c *Collection) writeWithXattrs(
 				}
 			}
 		}
-		e.xattrs, _ = json.Marshal(xattrs)
+		if len(xattrs) > 0 {
+			e.xattrs, _ = json.Marshal(xattrs)
+		} else {
+			e.xattrs = nil // no xattrs is stored as NULL, as every other write path does
+		}
 		e.isDeletion = (e.value == nil) // a document without a body is a tombstone, whichever write produced it
 
 		if err = checkDocSize(len(e.value) + len(e.xattrs)); err != nil {
